@@ -34,6 +34,7 @@ func propC04(w *World, r *Report) {
 	checkOperandSelection(w, r)
 	checkRoundingBase(w, r)
 	checkWidthDict(w, r)
+	checkStemOpEmit(w, r)
 }
 
 // ---- endchar
@@ -2054,4 +2055,110 @@ func notTheParameter(v ssa.Value, fn *ssa.Function) string {
 		}
 	}
 	return ""
+}
+
+// checkStemOpEmit: TN5177 allows the vstem(hm) operator to be left out only
+// when a hintmask or cntrmask operator follows the stem declarations
+// *directly* ("hstemhm ... hintmask": the remaining operands are taken as
+// vertical stems).  In encodeCharString the stem operator of a chunk is
+// therefore appended unconditionally, or skipped under a condition that looks
+// at the first command of the glyph (Cmds[0]); a condition that only knows
+// that some mask occurs somewhere is not enough — the operands would land on
+// the next operator.
+func checkStemOpEmit(w *World, r *Report) {
+	r.Rule("stemopemit: in encodeCharString every condition under which the operator of a stem chunk is not emitted depends on the first command of the glyph (a load of Cmds[0]): the implicit vstem form is legal only when a mask operator follows the stem operands directly")
+	fn := w.Func("(*cff.Glyph).encodeCharString")
+	if fn == nil {
+		r.Fatal("stemopemit: (*cff.Glyph).encodeCharString does not resolve")
+		return
+	}
+	ci := ctrlDeps(fn)
+	loops := naturalLoops(fn)
+	n := 0
+	for _, b := range fn.Blocks {
+		for _, in := range b.Instrs {
+			c, ok := in.(*ssa.Call)
+			if !ok || c.Call.StaticCallee() == nil || c.Call.StaticCallee().Name() != "Bytes" {
+				continue
+			}
+			// the operator comes from a stem record (a field named op) — not endchar etc.
+			fromStem := false
+			for v := range backSlice(c) {
+				if fa, ok := v.(*ssa.FieldAddr); ok && fieldName(fa) == "op" {
+					fromStem = true
+				}
+				if f, ok := v.(*ssa.Field); ok && fieldName(f) == "op" {
+					fromStem = true
+				}
+			}
+			if !fromStem {
+				continue
+			}
+			n++
+			key := r.MkKey("stemopemit", fnName(fn), "stem operator of a chunk")
+			var loop *natLoop
+			for _, l := range loops {
+				if l.body[b] && (loop == nil || len(l.body) < len(loop.body)) {
+					loop = l
+				}
+			}
+			bad := token.NoPos
+			for _, d := range ci.dep[b] {
+				if loop != nil && (!loop.body[d] || d == loop.head) {
+					continue
+				}
+				ifi, ok := d.Instrs[len(d.Instrs)-1].(*ssa.If)
+				if !ok {
+					continue
+				}
+				first := false
+				for v := range backSlice(ifi.Cond) {
+					if ia, ok := v.(*ssa.IndexAddr); ok {
+						if k, isC := bconstInt(ia.Index); isC && k == 0 {
+							for u := range backSlice(ia.X) {
+								if fa, ok := u.(*ssa.FieldAddr); ok && fieldName(fa) == "Cmds" {
+									first = true
+								}
+							}
+						}
+					}
+				}
+				if !first {
+					// part of a chain that ends in the Cmds[0] test? then the final
+					// decision still looks at the first command
+					bad = ifi.Cond.Pos()
+				}
+			}
+			// in an && chain every operand is an If of its own: accept when at
+			// least one of the deciding conditions looks at Cmds[0]
+			sawFirst := false
+			for _, d := range ci.dep[b] {
+				if loop != nil && (!loop.body[d] || d == loop.head) {
+					continue
+				}
+				if ifi, ok := d.Instrs[len(d.Instrs)-1].(*ssa.If); ok {
+					for v := range backSlice(ifi.Cond) {
+						if ia, ok := v.(*ssa.IndexAddr); ok {
+							if k, isC := bconstInt(ia.Index); isC && k == 0 {
+								for u := range backSlice(ia.X) {
+									if fa, ok := u.(*ssa.FieldAddr); ok && fieldName(fa) == "Cmds" {
+										sawFirst = true
+									}
+								}
+							}
+						}
+					}
+				}
+			}
+			switch {
+			case !bad.IsValid() || sawFirst:
+				r.OK("stemopemit", key, w.Pos(c.Pos()), "emitted, or skipped only after a look at the first command")
+			default:
+				r.Fail("stemopemit", key, w.Pos(c.Pos()), "the stem operator is skipped under a condition (at "+w.Pos(bad)+") that never looks at the first command of the glyph: when the first mask does not follow the stems directly the stem operands are left on the stack for the next operator", nil)
+			}
+		}
+	}
+	if n == 0 {
+		r.Fatal("stemopemit: no emission of a stem operator found in encodeCharString")
+	}
 }
